@@ -1772,6 +1772,10 @@ class _multivalued(Deb822):
             except KeyError:
                 continue
 
+            if not isinstance(contents, str):
+                # already structured: built from a mapping of records, e.g. copy()
+                continue
+
             if self.is_multi_line(contents):
                 self[field] = []    # type: ignore
                 updater_method = self[field].append
